@@ -175,6 +175,23 @@ def eval_default(self, fi, node):
     return v
 
 
+def _load_baseline():
+    """names of the package functions that existed when the rules were written.  Only an analysis-precision policy
+    hangs on it: the depth bound of the inliner applies to THESE; a function that is not listed (a helper that a later
+    refactoring extracted, a renamed function) is always analysed through its body, so extract-method edits do not
+    turn known arithmetic into an opaque call."""
+    import os
+    p = os.path.join(os.path.dirname(os.path.abspath(__file__)), 'baseline_functions.txt')
+    try:
+        with open(p) as f:
+            return {l.strip() for l in f if l.strip()}
+    except OSError:
+        return set()
+
+
+BASELINE_FUNCS = _load_baseline()
+
+
 def call_package(self, fi, pos, kw, self_term, self_cls, node, fr, star=None, dstar=None, cls_term=None):
     is_method = fi.cls is not None and fi.parent is None and not fi.is_staticmethod
     bound = self.bind_args(fi, pos, kw, fr, skip_first=is_method)
@@ -182,7 +199,8 @@ def call_package(self, fi, pos, kw, self_term, self_cls, node, fr, star=None, ds
                    recv=self_term, external=False, star=star, dstar=dstar)
     depth = fr.depth + 1
     recursive = any(f.fi is fi for f in self.frames)
-    if depth > self.max_depth or recursive or fi.short in self.no_inline or star is not None or dstar is not None:
+    too_deep = depth > self.max_depth and (fi.short in BASELINE_FUNCS or depth > self.max_depth + 3)
+    if too_deep or recursive or fi.short in self.no_inline or star is not None or dstar is not None:
         args = ([self_term] if (is_method and self_term is not None) else []) + pos
         if star is None and dstar is None and not fi.node.args.vararg and not fi.node.args.kwarg:
             # canonical opaque application: every formal (defaults included) in declaration order
@@ -289,11 +307,17 @@ def method_call(self, recv, name, pos, kw, node, fr, star=None, dstar=None):
         self.emit('call', node, fr, name='.' + name, resolved=None, args=[recv] + pos, kwargs=kw, external=True,
                   method=True, recv=recv, recv_node=node.func.value)
         return self.numpy_call(name, [recv] + pos, kw)
-    # duck-typed: unique method of that name in the package
-    cands = [c.methods[name] for c in self.prog.classes.values() if name in c.methods]
-    self.emit('call', node, fr, name='.' + name, resolved=None, args=[recv] + pos, kwargs=kw, external=True,
-              method=True, recv=recv, recv_node=node.func.value, candidates=[c.short for c in cands],
-              mutating=name in MUTATING_METHODS)
+    if _builtin_list(self, recv) and name in ('append', 'extend', 'insert', 'pop', 'sort', 'reverse', 'clear', 'remove',
+                                              'index', 'count', 'copy'):
+        # a list the function built itself: the method is the builtin one, not a package method of the same name
+        self.emit('call', node, fr, name='.' + name, resolved=None, args=[recv] + pos, kwargs=kw, external=True,
+                  method=True, recv=recv, recv_node=node.func.value, mutating=name in MUTATING_METHODS)
+    else:
+        # duck-typed: unique method of that name in the package
+        cands = [c.methods[name] for c in self.prog.classes.values() if name in c.methods]
+        self.emit('call', node, fr, name='.' + name, resolved=None, args=[recv] + pos, kwargs=kw, external=True,
+                  method=True, recv=recv, recv_node=node.func.value, candidates=[c.short for c in cands],
+                  mutating=name in MUTATING_METHODS)
     if name == 'append' and ra is not None and ra.kind == 'list' and len(pos) == 1 and self.class_of(recv) is None:
         self._rebind(node.func.value, T.mk_tuple(list(ra.args) + [pos[0]], 'list'), fr)
         return NONE
@@ -305,6 +329,19 @@ def method_call(self, recv, name, pos, kw, node, fr, star=None, dstar=None):
     if name in ('get',) and pos:
         return T.mk_call('.get', [recv] + pos, kw)
     return T.mk_call('.' + name, [recv] + pos, kw)
+
+
+def _builtin_list(self, recv, depth=0):
+    a = recv.single_atom()
+    if a is None or depth > 6:
+        return False
+    if a.kind in ('list', 'comp') :
+        return a.kind == 'list' or a.args[0] == 'list'
+    if a.kind in ('loopvar', 'after') and len(a.args) == 2 and (a.args[0], a.args[1]) in self.loop_init:
+        return _builtin_list(self, self.loop_init[(a.args[0], a.args[1])], depth + 1)
+    if a.kind == 'call' and str(a.args[0]).startswith('mut.') and a.args[1]:
+        return _builtin_list(self, a.args[1][0], depth + 1)
+    return False
 
 
 def _dict_method(self, ra, recv, name, pos, kw, node, fr):
@@ -326,6 +363,17 @@ def _dict_method(self, ra, recv, name, pos, kw, node, fr):
                 return v
         return pos[1] if len(pos) > 1 else None
     return None
+
+
+NPDEFAULTS = {
+    'concatenate': {'axis': 0}, 'sort': {'axis': -1}, 'diff': {'n': 1, 'axis': -1}, 'round': {'decimals': 0},
+    'linspace': {'endpoint': True}, 'sum': {'axis': None}, 'mean': {'axis': None}, 'std': {'axis': None},
+    'var': {'axis': None}, 'median': {'axis': None}, 'repeat': {'axis': None}, 'append': {'axis': None},
+    'flip': {'axis': None}, 'fftshift': {'axes': None}, 'fft': {'n': None, 'axis': -1}, 'rfft': {'n': None, 'axis': -1},
+    'cumsum': {'axis': None}, 'normal': {'loc': 0, 'scale': 1, 'size': None}, 'standard_normal': {'size': None},
+    'uniform': {'low': 0, 'high': 1, 'size': None}, 'chisquare': {'size': None}, 'integers': {'high': None, 'size': None},
+    'clip': {}, 'array': {'dtype': None}, 'zeros': {}, 'full': {'dtype': None}, 'default_rng': {'seed': None},
+}
 
 
 def numpy_call(self, name, pos, kw):
@@ -352,6 +400,17 @@ def numpy_call(self, name, pos, kw):
         pos = pos[:1]
         for pname, v in zip(sig[1:], extra):
             kw.append((pname, v))
+    # a keyword spelled with its documented default is the same call as without it
+    dflt = NPDEFAULTS.get(name, {})
+    if kw:
+        kept = []
+        for k, v in kw:
+            if k in dflt:
+                d = dflt[k]
+                if (d is None and T._isnone(v)) or (d is not None and v.key == lift(d).key):
+                    continue
+            kept.append((k, v))
+        kw = kept
     if name in ('zeros', 'empty', 'ones', 'full') and pos:
         sa = pos[0].single_atom()
         if sa is not None and sa.kind == 'list':
@@ -471,6 +530,24 @@ def call_builtin(self, name, pos, kw, node, fr):
             if s is not None:
                 return s[2]
         return self.numpy_call(name, pos, kw)
+    if name in ('filter', 'map') and len(pos) == 2 and not kw:
+        # filter(f, xs) == [x for x in xs if f(x)] ;  map(f, xs) == [f(x) for x in xs]   (as iterated values)
+        fa = pos[0].single_atom()
+        if fa is not None and fa.kind in ('closure', 'func', 'boundmethod'):
+            cid = f'C{getattr(node, "lineno", 0)}:{getattr(node, "col_offset", 0)}:0'
+            tv, _ = self._loop_target(pos[1], cid)
+            rec, self.record = self.record, False
+            try:
+                v = self._call_value(pos[0], [tv], [], node, fr)
+            finally:
+                self.record = rec
+            if name == 'filter':
+                return Term.of(Atom('comp', 'list', tv, (T.mk_tuple([pos[1], v]),)))
+            return Term.of(Atom('comp', 'list', v, (T.mk_tuple([pos[1]]),)))
+    if name == 'list' and len(pos) == 1 and not kw:
+        xa = pos[0].single_atom()
+        if xa is not None and xa.kind == 'comp' and xa.args[0] in ('list', 'gen'):
+            return Term.of(Atom('comp', 'list', xa.args[1], xa.args[2]))
     if name in ('dict', 'list', 'tuple') and len(pos) == 1 and not kw:
         xa = pos[0].single_atom()
         if xa is not None and xa.kind in ('dict', 'list', 'tuple') and name in ('dict', 'list', 'tuple'):
